@@ -94,8 +94,8 @@ def _fault_plan(r, enabled, bitmap=False):
     kind = r.choice(enabled)
     if kind == "step":
         fs = []
-        if r.random() < (0.4 if bitmap else 0.05):
-            fs.append({"pick": r.randint(0, 1 << 30), "kind": "inner_fail", "rules": ["pngquant"], "code": r.choice([1, 2, 3, 15, 35, 139]),
+        if r.random() < (0.4 if bitmap else 0.12):
+            fs.append({"pick": r.randint(0, 1 << 30), "kind": "inner_fail", "rules": r.choice([["pngquant"], ["pngquant"], ["write_bitmap"], ["picosvg"]]), "code": r.choice([1, 2, 3, 15, 35, 139]),
                        "mode": r.choice(["no_output", "no_output", "partial", "partial"]), "signal": r.choice([None, None, 9, 11, 15])})
         for _ in range(r.choice([1, 1, 2])):
             fs.append(
